@@ -124,12 +124,12 @@ def assist_prefix_main(run, twin=None):
         Source=lambda source, filename, position: SourceStub(source),
         EvalCtx=lambda project: object(),
         re=ReStub(),
-        get_marked_import=lambda tree: None,
-        extract_scope=lambda source, project: object(),
-        get_marked_atribute=lambda tree: None,
-        get_marked_name=lambda tree: None,
+        get_marked_import=lambda tree, *a_, **k_: None,
+        extract_scope=lambda source, project, *a_, **k_: object(),
+        get_marked_atribute=lambda tree, *a_, **k_: None,
+        get_marked_name=lambda tree, *a_, **k_: None,
         list_packages=lambda project, root, filename: ['<packages of %r>' % (root,)],
-        print_dump=lambda tree: None,
+        print_dump=lambda tree, *a_, **k_: None,
     ))
     col = z3.Int('col')
     holder = {}
@@ -189,9 +189,9 @@ def assist_prefix_from(run):
     f = loader.load(MOD, 'assist', stubs=dict(
         Source=lambda source, filename, position: SourceStub(source, parses=False),
         EvalCtx=lambda project: object(), re=ReStub(),
-        get_marked_import=lambda tree: None, extract_scope=lambda source, project: object(),
-        get_marked_atribute=lambda tree: None, get_marked_name=lambda tree: None,
-        list_packages=lambda project, root, filename: ['<packages>', root], print_dump=lambda tree: None))
+        get_marked_import=lambda tree, *a_, **k_: None, extract_scope=lambda source, project, *a_, **k_: object(),
+        get_marked_atribute=lambda tree, *a_, **k_: None, get_marked_name=lambda tree, *a_, **k_: None,
+        list_packages=lambda project, root, filename: ['<packages>', root], print_dump=lambda tree, *a_, **k_: None))
     holder = {}
 
     def body():
@@ -257,9 +257,9 @@ def assist_prefix_import(run):
     f = loader.load(MOD, 'assist', stubs=dict(
         Source=lambda source, filename, position: source,
         EvalCtx=lambda project: object(), re=ReStub(),
-        extract_scope=lambda source, project: object(),
-        get_marked_atribute=lambda tree: None, get_marked_name=lambda tree: None,
-        list_packages=lambda project, root, filename: [], print_dump=lambda tree: None))
+        extract_scope=lambda source, project, *a_, **k_: object(),
+        get_marked_atribute=lambda tree, *a_, **k_: None, get_marked_name=lambda tree, *a_, **k_: None,
+        list_packages=lambda project, root, filename: [], print_dump=lambda tree, *a_, **k_: None))
     holder = {}
     from contracts.util_strings import marked_name, dotted
 
@@ -424,11 +424,11 @@ def assist_proposals(run, twin=None):
         f = loader.load(MOD, 'assist', stubs=dict(
             Source=lambda source, filename, position: source,
             EvalCtx=lambda project: Ctx(), re=ReStub(),
-            get_marked_import=lambda tree: None, extract_scope=lambda source, project: object(),
-            get_marked_atribute=(lambda tree: anode) if path == 'attribute' else (lambda tree: None),
-            get_marked_name=lambda tree: node, sorted=sorted_stub, unmark=lambda n: ('unmarked', n),
+            get_marked_import=lambda tree, *a_, **k_: None, extract_scope=lambda source, project, *a_, **k_: object(),
+            get_marked_atribute=(lambda tree, *a_, **k_: anode) if path == 'attribute' else (lambda tree, *a_, **k_: None),
+            get_marked_name=lambda tree, *a_, **k_: node, sorted=sorted_stub, unmark=lambda n: ('unmarked', n),
             list=lambda x: ('list', x), tuple=lambda x: ('tuple', x), set=lambda x: ('set', x),
-            list_packages=lambda project, root, filename: ['<packages>'], print_dump=lambda tree: None),
+            list_packages=lambda project, root, filename: ['<packages>'], print_dump=lambda tree, *a_, **k_: None),
             comps={0: gen_schema}, comps_optional=True)
 
         def body(path=path, table=table):
@@ -517,8 +517,8 @@ def assist_import_proposals(run):
         return TagSet(x)
     f = loader.load(MOD, 'assist', stubs=dict(
         Source=lambda source, filename, position: source, EvalCtx=lambda project: object(), re=ReStub(),
-        get_marked_import=lambda tree: seen['marked'], list_packages=lambda project, root, filename: PL,
-        sorted=sorted_stub, set=set_stub, list=lambda x: [('list-of', x)], print_dump=lambda tree: None))
+        get_marked_import=lambda tree, *a_, **k_: seen['marked'], list_packages=lambda project, root, filename: PL,
+        sorted=sorted_stub, set=set_stub, list=lambda x: [('list-of', x)], print_dump=lambda tree, *a_, **k_: None))
 
     def go(path):
         class Src(object):
@@ -538,7 +538,7 @@ def assist_import_proposals(run):
         asked = []
         f2 = loader.load(MOD, 'assist', stubs=dict(
             Source=lambda source, filename, position: source, EvalCtx=lambda project: object(),
-            list_packages=lambda project, root, filename: asked.append(root) or ['<listing of %s>' % root], print_dump=lambda tree: None))
+            list_packages=lambda project, root, filename: asked.append(root) or ['<listing of %s>' % root], print_dump=lambda tree, *a_, **k_: None))
         for text in ('', 'o', 'os.pa', 'os.', 'os.path.jo', '.', '..', '.x', '..x', '.a.', '.a.b', '..a.b.', '..a.b.c', '...', '...pkg.'):
             level = len(text) - len(text.lstrip('.'))
             rest = text[level:]
